@@ -157,3 +157,17 @@ def write_replay(prop, sub, viol_bucket, message, case, detail=None):
         json.dump({"property": prop, "sub": sub, "bucket": viol_bucket, "message": message,
                    "detail": detail, "case": case}, f, indent=1, sort_keys=True, default=_json_default)
     return os.path.relpath(path, OUT_DIR)
+
+
+def global_invariants():
+    """Library-wide shared state that no operation of any property may alter (checked by the runner after every case).
+    The imaginary-unit constant cplx.I is used by gradients, observables and the complex kernel alike: if any library call
+    changes it in place, every later result in the process is silently wrong."""
+    try:
+        from qucumber.utils import cplx
+    except Exception:
+        return
+    if cplx.I.tolist() != [0.0, 1.0]:
+        bad = cplx.I.tolist()
+        cplx.I.copy_(cplx.I.new_tensor([0.0, 1.0]))      # restore so that the search can continue behind this finding
+        raise PropertyViolation("global:shared-constant-cplx.I-changed", f"a library call changed the shared imaginary-unit constant cplx.I in place (now {bad})")
